@@ -7,6 +7,9 @@ import (
 	"fmt"
 	"math"
 
+	"crypto/sha256"
+
+	"golang.org/x/crypto/pbkdf2"
 	"golang.org/x/crypto/scrypt"
 	"verifharness/hx"
 )
@@ -34,15 +37,46 @@ func tooBig(N, r, p, keyLen int64) bool {
 	return 128*r*N > 1<<26 || p*128*r > 1<<20 || p*r*N > 1<<18 || keyLen > 1<<16
 }
 
+// arm names the clause of scrypt.Key's argument checks that decides the outcome (for coverage counters only).
+func arm(N, r, p, keyLen int64) string {
+	switch {
+	case N <= 1:
+		return "N<=1"
+	case N&(N-1) != 0:
+		return "N-not-pow2"
+	case r <= 0:
+		return "r<=0"
+	case p <= 0:
+		return "p<=0"
+	case uint64(r)*uint64(p) >= 1<<30:
+		return "r*p>=2^30"
+	case r > maxInt/128/p:
+		return "r>maxInt/128/p"
+	case r > maxInt/256:
+		return "r>maxInt/256" // unreachable: implied by the two clauses before it (validate_accept_iff)
+	case N > maxInt/128/r:
+		return "N>maxInt/128/r"
+	case keyLen <= 0:
+		return "keyLen<=0"
+	case uint64(keyLen) > (1<<32-1)*32:
+		return "keyLen>max"
+	}
+	return "accept"
+}
+
+var reachableArms = []string{"N<=1", "N-not-pow2", "r<=0", "p<=0", "r*p>=2^30", "r>maxInt/128/p", "N>maxInt/128/r", "keyLen<=0", "keyLen>max", "accept"}
+
 var nSpecial = []int64{0, 1, 3, 6, -4, 5, 12, 1023, 1025, -2, -1024, 1 << 30, 1 << 31, 1 << 56, 1 << 57, 1 << 62, math.MinInt64, math.MinInt64 + 1, -(1 << 62), -(1 << 62) + 1, maxInt, maxInt - 1, 1<<62 + 1}
 var rpSpecial = []int64{1 << 29, 1 << 30, 1 << 31, 1 << 32, 1 << 33, 1 << 25, 1 << 26, 1 << 62, maxInt/128 - 1, maxInt / 128, maxInt/128 + 1,
 	maxInt / 256, maxInt/256 + 1, maxInt, math.MinInt64, 1<<30 - 1, 64, 128, 1024}
 var keyLenSpecial = []int64{1 << 38, maxInt - 32, maxInt - 31, maxInt, (1<<32-1)*32 + 1, math.MinInt64, 1 << 62}
 
 func gen(g *hx.Gen) {
-	n := g.Count(2000, 30000)
+	n := g.Count(1500, 30000)
 	r := g.R
+	arms := map[string]bool{}
 	emit := func(pw, salt []byte, N, rr, p, kl int64) {
+		arms[arm(N, rr, p, kl)] = true
 		switch {
 		case tooBig(N, rr, p, kl):
 			g.Stat("skipped.too-big")
@@ -106,10 +140,90 @@ func gen(g *hx.Gen) {
 		emit(pw, salt, N, rr, p, kl)
 		g2++
 	}
+	// every pair of features from different dimensions, once each (the rest of the tuple is small)
+	type feat struct {
+		name string
+		set  func(c *cse)
+	}
+	dims := [][]feat{
+		{{"pw-nil", func(c *cse) { c.pwNil = true }}, {"pw-empty", func(c *cse) { c.pw = []byte{} }}, {"pw-short", func(c *cse) { c.pw = r.Bytes(7) }},
+			{"pw-64", func(c *cse) { c.pw = r.Bytes(64) }}, {"pw-65", func(c *cse) { c.pw = r.Bytes(65) }}, {"pw-200", func(c *cse) { c.pw = r.Bytes(200) }}},
+		{{"salt-nil", func(c *cse) { c.saltNil = true }}, {"salt-empty", func(c *cse) { c.salt = []byte{} }}, {"salt-16", func(c *cse) { c.salt = r.Bytes(16) }},
+			{"salt-100", func(c *cse) { c.salt = r.Bytes(100) }}},
+		{{"N-2", func(c *cse) { c.N = 2 }}, {"N-64", func(c *cse) { c.N = 64 }}, {"N-1024", func(c *cse) { c.N = 1024 }}},
+		{{"r-1", func(c *cse) { c.r = 1 }}, {"r-3", func(c *cse) { c.r = 3 }}, {"r-8", func(c *cse) { c.r = 8 }}},
+		{{"p-1", func(c *cse) { c.p = 1 }}, {"p-2", func(c *cse) { c.p = 2 }}, {"p-8", func(c *cse) { c.p = 8 }}},
+		{{"keyLen-1", func(c *cse) { c.kl = 1 }}, {"keyLen-31", func(c *cse) { c.kl = 31 }}, {"keyLen-32", func(c *cse) { c.kl = 32 }},
+			{"keyLen-33", func(c *cse) { c.kl = 33 }}, {"keyLen-64", func(c *cse) { c.kl = 64 }}, {"keyLen-300", func(c *cse) { c.kl = 300 }}},
+	}
+	for a := 0; a < len(dims); a++ {
+		for b := a + 1; b < len(dims); b++ {
+			for _, fa := range dims[a] {
+				for _, fb := range dims[b] {
+					c := cse{pw: r.Bytes(5), salt: r.Bytes(8), N: 4, r: 1, p: 1, kl: 20}
+					fa.set(&c)
+					fb.set(&c)
+					extra := ""
+					if c.pwNil {
+						c.pw, extra = nil, extra+" nil=pw"
+					}
+					if c.saltNil {
+						c.salt = nil
+						if extra == "" {
+							extra = " nil=salt"
+						} else {
+							extra = " nil=both"
+						}
+					}
+					arms[arm(c.N, c.r, c.p, c.kl)] = true
+					g.Stat("pair." + fa.name + "+" + fb.name)
+					g.Emit("key pw=%s salt=%s N=%d r=%d p=%d keyLen=%d%s", hx.Hex(c.pw), hx.Hex(c.salt), c.N, c.r, c.p, c.kl, extra)
+				}
+			}
+		}
+	}
+	// the x/crypto/pbkdf2 wrapper itself (anchored file): SHA-256, iterations 1..4, key lengths around 0, 32, 64 and
+	// beyond what crypto/pbkdf2 produces (its refusal becomes a panic in the wrapper, before anything is allocated)
+	for i, n := 0, g.Count(150, 3000); i < n; i++ {
+		kl := int64(r.PickInt(-2, -1, 0, 0, 1, 2, 31, 32, 33, 63, 64, 65, 100, r.Range(1, 200)))
+		if r.Chance(1, 15) {
+			kl = hx.Pick(r, []int64{(1<<32-1)*32 + 1, 1 << 38, maxInt - 32, maxInt - 31, maxInt, math.MinInt64})
+			g.Stat("pb.huge-keylen")
+		} else if kl <= 0 {
+			g.Stat("pb.keylen<=0")
+		} else {
+			g.Stat("pb.valid")
+		}
+		g.Emit("pb pw=%s salt=%s iter=%d keyLen=%d", hx.Hex(r.Bytes(r.PickInt(0, 1, 20, 64, 65, 100))), hx.Hex(r.Bytes(r.PickInt(0, 8, 16, 60, 61))), r.PickInt(1, 1, 2, 3, 4), kl)
+	}
+	hit := 0
+	for _, a := range reachableArms {
+		if arms[a] {
+			hit++
+		}
+	}
+	g.Stat(fmt.Sprintf("table.scrypt-argument-checks=%d/%d", hit, len(reachableArms)))
+}
+
+type cse struct {
+	pw, salt       []byte
+	pwNil, saltNil bool
+	N, r, p, kl    int64
 }
 
 func exec(line string) string {
 	o := hx.Parse(line)
+	if o.Cmd == "pb" {
+		kl := o.Int("keyLen")
+		if kl > 1<<16 && uint64(kl) <= (1<<32-1)*32 {
+			return "too-big"
+		}
+		out := pbkdf2.Key(o.Hex("pw"), o.Hex("salt"), o.Int("iter"), kl, sha256.New) // a panic is caught by hx (observable `panic`)
+		if len(out) != kl {
+			return fmt.Sprintf("ok-wrong-len %d", len(out))
+		}
+		return "ok " + hx.Hex(out)
+	}
 	if o.Cmd != "key" {
 		return "bad-op"
 	}
@@ -117,7 +231,16 @@ func exec(line string) string {
 	if tooBig(int64(N), int64(r), int64(p), int64(kl)) {
 		return "too-big"
 	}
-	key, err := scrypt.Key(o.Hex("pw"), o.Hex("salt"), N, r, p, kl)
+	pw, salt := o.Hex("pw"), o.Hex("salt")
+	switch o.Str("nil") { // nil instead of empty slices
+	case "pw":
+		pw = nil
+	case "salt":
+		salt = nil
+	case "both":
+		pw, salt = nil, nil
+	}
+	key, err := scrypt.Key(pw, salt, N, r, p, kl)
 	if err != nil {
 		if key != nil {
 			return "err-with-key" // the statement requires a nil slice with the error
